@@ -934,6 +934,15 @@ class PGPMessage(Armorable, PGPObject):
         return list(self._signatures)
 
     @property
+    def _signed_data(self):
+        # what a signature over this message covers
+        if self.type == 'cleartext':
+            # RFC 4880 7.1: trailing spaces and tabs of each line are not part of the signed text
+            return re.subn(r'[ \t]+(?=\r?$)', '', self.message, flags=re.MULTILINE)[0]
+
+        return self.message
+
+    @property
     def signers(self):
         """A ``set`` containing all key ids (if any) which have signed this message."""
         return set(m.signer for m in self._signatures)
@@ -2050,7 +2059,7 @@ class PGPKey(Armorable, ParentRef, PGPObject):
             if subject.type == 'cleartext':
                 sig_type = SignatureType.CanonicalDocument
 
-            subject = subject.message
+            subject = subject._signed_data
 
         sig = PGPSignature.new(sig_type, self.key_algorithm, hash_algo, self.fingerprint.keyid, created=prefs.pop('created', None))
 
@@ -2441,7 +2450,7 @@ class PGPKey(Armorable, ParentRef, PGPObject):
         if signature is None:
             if isinstance(subject, PGPMessage):
                 for sig in _filter_sigs(subject.signatures):
-                    sspairs.append((sig, subject.message))
+                    sspairs.append((sig, subject._signed_data))
 
             if isinstance(subject, (PGPUID, PGPKey)):
                 sspairs += [ (sig, subject) for sig in _filter_sigs(subject.__sig__) ]
